@@ -114,26 +114,8 @@ pub trait NodeMut {
             return Ok(old_child.clone());
         }
 
-        // (a document type and a merged text node cannot be put back by insert_before)
-        if matches!(
-            old_child,
-            XmlNode::DocumentType(_) | XmlNode::ExpandedText(_)
-        ) {
-            self.insert_before(new_child, Some(old_child))?;
-            return self.remove_child(old_child);
-        }
-
-        // The old child leaves first: its place may be the only one the new child can take
-        // (the document element). It comes back if the new child is refused.
-        let next = old_child.next_sibling();
-        let old = self.remove_child(old_child)?;
-        match self.insert_before(new_child, next.as_ref()) {
-            Ok(_) => Ok(old),
-            Err(e) => {
-                self.insert_before(old, next.as_ref())?;
-                Err(e)
-            }
-        }
+        self.insert_before(new_child, Some(old_child))?;
+        self.remove_child(old_child)
     }
 
     fn remove_child(&self, old_child: &XmlNode) -> error::Result<XmlNode>;
@@ -1226,6 +1208,35 @@ impl Node for XmlDocument {
 impl NodeMut for XmlDocument {
     fn set_node_value(&self, _: &str) -> error::Result<()> {
         Err(error::DomException::NoDataAllowedErr)?
+    }
+
+    fn replace_child(&self, new_child: XmlNode, old_child: &XmlNode) -> error::Result<XmlNode> {
+        let same = new_child.id() == old_child.id()
+            && new_child.owner_document() == old_child.owner_document();
+        let element_swap = !same
+            && matches!(old_child, XmlNode::Element(_))
+            && matches!(new_child, XmlNode::Element(_))
+            && Some(self.clone()) == new_child.owner_document();
+        if !element_swap {
+            self.insert_before(new_child, Some(old_child))?;
+            return if same {
+                Ok(old_child.clone())
+            } else {
+                self.remove_child(old_child)
+            };
+        }
+
+        // The document element leaves first: its place is the only one another element can
+        // take. It comes back if the new child is refused.
+        let next = old_child.next_sibling();
+        let old = self.remove_child(old_child)?;
+        match self.insert_before(new_child, next.as_ref()) {
+            Ok(_) => Ok(old),
+            Err(e) => {
+                self.insert_before(old, next.as_ref())?;
+                Err(e)
+            }
+        }
     }
 
     fn insert_before(
